@@ -247,6 +247,14 @@ theorem C04_closure_release_never_waits :
 theorem C04_done_context_reaches_the_stub :
     Skeleton.current.ucResultsUntouched = true ∧ Skeleton.current.panicSitesCanonical = true := by decide
 
+/-- `C04_late_response_inert` is a theorem about M2's response loop, which hands every response to the pending-call
+    table and moves on: a publisher that finds no entry, or whose entry's context is done, is a step that touches no
+    call and never `setErr`. That is the code's response loop only if the publish is a statement of its own and the
+    goroutine around it reports nothing (checked against the regenerated skeleton) — a loop that ends the link when an
+    ERROR response finds no taker turns the late answer of a cancelled call into the end of every other call. -/
+theorem C04_late_responses_are_dropped_whatever_they_carry :
+    Skeleton.current.respPublishFireAndForget = true ∧ Skeleton.current.respPublishAsync = true := by decide
+
 end Panrpc.Ep
 
 #print axioms Panrpc.Ep.C04_closure_invocations_are_cancellable
@@ -266,3 +274,4 @@ end Panrpc.Ep
 #print axioms Panrpc.Ep.C04_done_context_call_registers
 #print axioms Panrpc.Ep.C04_closure_release_never_waits
 #print axioms Panrpc.Ep.C04_done_context_reaches_the_stub
+#print axioms Panrpc.Ep.C04_late_responses_are_dropped_whatever_they_carry
